@@ -10,7 +10,7 @@
 (* A snapshot is [present, cols, rows, dig, meta, metav]; dig / metav are   *)
 (* tokens of bitwise digests of column data / header values.                *)
 (***************************************************************************)
-EXTENDS TraceKit, NuSpaceSim
+EXTENDS TraceKit, NuSpaceSim, Float64
 
 VARIABLES dig,     \* column name -> digest token when it was added
           metav,   \* header keyword -> value token when it was added
@@ -30,6 +30,11 @@ CanDoT(id) == /\ phase = "run" /\ id \in BIds /\ id \notin done
               /\ Gate(IF id = "Geom" THEN cfg ELSE Going, id)
               /\ Deps[id] \subseteq done
 
+(* header values: <<"n", double>> or <<"s", token>>.  A FITS card holds a float as at most 20 characters of   *)
+(* text (astropy truncates str(value)), so numbers on disk are compared at that precision.                  *)
+MetaEq(a, b) == /\ a[1] = b[1]
+                /\ IF a[1] = "n" THEN FClose(a[2], b[2], FDec("1e-13"), FZero) ELSE a[2] = b[2]
+
 SeqOfFcn(f, names) == [i \in 1..Len(names) |-> f[names[i]]]
 
 (* does a file snapshot equal the tracked in-memory table? *)
@@ -38,7 +43,7 @@ SnapIsMem(s) ==
     /\ s.cols = mem.cols
     /\ s.dig = SeqOfFcn(dig, mem.cols)
     /\ Range(s.meta) = mem.meta
-    /\ \A i \in 1..Len(s.meta) : s.meta[i] \in DOMAIN metav /\ s.metav[i] = metav[s.meta[i]]
+    /\ \A i \in 1..Len(s.meta) : s.meta[i] \in DOMAIN metav /\ MetaEq(s.metav[i], metav[s.meta[i]])
     /\ (mem.cols # <<>> => s.rows = rows)
 
 DiskClauses(s) ==
